@@ -1,6 +1,6 @@
 """C16 — hash functions equal the standards for every message and update pattern.
 Engine `hash`: md5.c sha1.c sha256.c sha512_256.c (+ microhttpd_ws/sha1.c)."""
-import hashlib, json, os, re, subprocess, tempfile
+import hashlib, json, os, re, subprocess, tempfile, time
 import vlib, extract
 
 ALGS = ["md5", "sha1", "sha256", "sha512_256", "wssha1"]
@@ -207,6 +207,243 @@ def gen_hash():
         o.append("")
     o.append("end Mhd.Gen.Hash\n")
     return vlib.write_if_changed(os.path.join(extract.GEN, "Hash.lean"), "\n".join(o))
+
+
+# --------------------------------------------------------------------------
+# (A2) translator: integer widths in the control flow of update/finish  ->  Mhd/Gen/HashCasts.lean
+#
+# The model's `length`, `count`, `bytes_have` are natural numbers.  That is a sound abstraction of the C
+# `size_t` / `uint64_t` / `unsigned int` only if no conversion on their way loses bits.  clang's AST names
+# every conversion (written casts and the ones the compiler inserts: assignments, initialisers, arguments,
+# compound assignments): all conversions from a 64-bit to a narrower integer type inside the ten
+# update/finish functions are emitted, each with its operand as a `Mhd.Hash.CExpr` (`x & c`, `x % c`,
+# `x >> c`, constants; anything else is `other`).  `Mhd.C16.no_narrowing_in_control_flow` proves that each
+# of them receives values that fit (so the conversion is the identity) — a cast such as
+# `(unsigned int) length` has no such bound and breaks the theorem.
+
+CAST_FUNCS = [("md5", "src/microhttpd/md5.c", "MHD_MD5_update", "MHD_MD5_finish"),
+              ("sha1", "src/microhttpd/sha1.c", "MHD_SHA1_update", "MHD_SHA1_finish"),
+              ("sha256", "src/microhttpd/sha256.c", "MHD_SHA256_update", "MHD_SHA256_finish"),
+              ("sha512_256", "src/microhttpd/sha512_256.c", "MHD_SHA512_256_update", "MHD_SHA512_256_finish"),
+              ("wssha1", "src/microhttpd_ws/sha1.c", "MHD_SHA1_update", "MHD_SHA1_finish")]
+
+_INTW = {"unsigned long": 64, "long": 64, "unsigned long long": 64, "long long": 64, "unsigned int": 32, "int": 32,
+         "unsigned short": 16, "short": 16, "unsigned char": 8, "signed char": 8, "char": 8, "_Bool": 1,
+         "unsigned __int128": 128, "__int128": 128}
+
+
+def _ast_docs(relpath, fn):
+    """clang-14 JSON AST of the declarations named `fn` in the file (one JSON document each)"""
+    path = os.path.join(vlib.REPO, relpath)
+    cmd = ["clang-14", "-fsyntax-only", "-w"] + vlib.CFLAGS_COMMON + ["-I" + os.path.dirname(path),
+           "-Xclang", "-ast-dump=json", "-Xclang", "-ast-dump-filter=" + fn, path]
+    r = vlib.sh(cmd, timeout=300)
+    if r.returncode != 0:
+        raise RuntimeError("clang-14 AST dump of %s failed: %s" % (relpath, r.stderr[-800:]))
+    dec, i, out, s = json.JSONDecoder(), 0, [], r.stdout
+    while True:
+        while i < len(s) and s[i].isspace():
+            i += 1
+        if i >= len(s):
+            break
+        o, i = dec.raw_decode(s, i)
+        out.append(o)
+    return out
+
+
+def _ty(n):
+    t = n.get("type") or {}
+    return t.get("desugaredQualType") or t.get("qualType") or ""
+
+
+def _bits(t):
+    return _INTW.get(re.sub(r"\b(const|volatile)\b", "", t or "").strip())
+
+
+def _loc(l):
+    return l.get("expansionLoc", l)
+
+
+_FN_RANGE = [0, 0]     # offsets of the function definition being walked (main file)
+
+
+def _text(src, rng):
+    b, e = rng["begin"], rng["end"]
+    sb, se = b.get("spellingLoc"), e.get("spellingLoc")
+    if sb and se and "offset" in sb and "offset" in se and _FN_RANGE[0] <= sb["offset"] <= se["offset"] <= _FN_RANGE[1]:
+        b, e = sb, se       # macro argument: the text as written at the call site
+    else:
+        b, e = _loc(b), _loc(e)
+    if "offset" not in b or "offset" not in e:
+        return "?"
+    return re.sub(r"\s+", " ", src[b["offset"]:e["offset"] + e.get("tokLen", 1)]).strip()
+
+
+def _cexpr(n, src):
+    """operand -> nested tuple ('lit', v) | ('band'|'mod'|'shr', a, b) | ('other', text, bits)"""
+    k = n.get("kind")
+    inner = [c for c in n.get("inner", []) if isinstance(c, dict) and c]
+    if k in ("ParenExpr", "ConstantExpr") and inner:
+        return _cexpr(inner[0], src)
+    if k in ("ImplicitCastExpr", "CStyleCastExpr") and inner:
+        ck = n.get("castKind")
+        if ck in ("LValueToRValue", "NoOp"):
+            return _cexpr(inner[0], src)
+        if ck == "IntegralCast":
+            ws, wt = _bits(_ty(inner[0])), _bits(_ty(n))
+            sub = _cexpr(inner[0], src)
+            if sub[0] == "lit" and wt and (not _signed(_ty(n)) or sub[1] < (1 << (wt - 1))):
+                return ("lit", sub[1] % (1 << wt))  # conversion of a (non-negative) constant
+            if ws and wt and wt >= ws and not _signed(_ty(inner[0])):
+                return sub                          # widening of an unsigned value keeps it
+    if k == "IntegerLiteral":
+        return ("lit", int(n["value"]))
+    if k == "BinaryOperator" and len(inner) == 2:
+        a, b = _cexpr(inner[0], src), _cexpr(inner[1], src)
+        op = n.get("opcode")
+        w = _bits(_ty(n))
+        if a[0] == "lit" and b[0] == "lit" and w and op in ("+", "-", "*", "/", "&", "|", "<<", ">>", "%"):
+            try:
+                v = {"+": a[1] + b[1], "-": a[1] - b[1], "*": a[1] * b[1], "&": a[1] & b[1], "|": a[1] | b[1],
+                     "<<": a[1] << b[1] if b[1] < w else None, ">>": a[1] >> b[1] if b[1] < w else None,
+                     "/": a[1] // b[1] if b[1] else None, "%": a[1] % b[1] if b[1] else None}[op]
+            except (ValueError, OverflowError):
+                v = None
+            if v is not None and not _signed(_ty(n)):
+                return ("lit", v % (1 << w))
+            if v is not None and 0 <= v < (1 << (w - 1)):      # signed: only results that cannot have overflowed
+                return ("lit", v)
+        if op in ("&", "%", ">>") and not _signed(_ty(n)):
+            return ({"&": "band", "%": "mod", ">>": "shr"}[op], a, b)
+    return ("other", _text(src, n["range"]), _bits(_ty(n)) or 64)
+
+
+def _signed(t):
+    t = re.sub(r"\b(const|volatile)\b", "", t or "").strip()
+    return t in ("long", "long long", "int", "short", "signed char", "char", "__int128")
+
+
+_COND_CHILD = {"IfStmt": (0,), "WhileStmt": (0,), "DoStmt": (1,), "ConditionalOperator": (0,)}
+
+
+def _find_casts(n, src, fn_off, in_cond, role, out):
+    """role: 'arg' / 'store' while walking down the cast/paren chain directly under a call argument or under the
+    right-hand side of an assignment to memory (not to a plain variable); None elsewhere"""
+    k = n.get("kind")
+    inner = [c for c in n.get("inner", []) if isinstance(c, dict)]
+    hit = None
+    if k in ("ImplicitCastExpr", "CStyleCastExpr") and n.get("castKind") == "IntegralCast" and inner:
+        ws, wt = _bits(_ty(inner[0])), _bits(_ty(n))
+        if ws and wt and ws >= 64 and wt < ws:
+            hit = (k == "CStyleCastExpr", ws, wt, _cexpr(inner[0], src), _text(src, inner[0]["range"]))
+    if k == "CompoundAssignOperator":
+        ws, wt = _bits((n.get("computeResultType") or {}).get("desugaredQualType")
+                       or (n.get("computeResultType") or {}).get("qualType")), _bits(_ty(n))
+        if ws and wt and ws >= 64 and wt < ws:
+            t = _text(src, n["range"])
+            hit = (False, ws, wt, ("other", t, ws), t)
+    if hit:
+        b = _loc(n["range"]["begin"])
+        line = src.count("\n", fn_off, b["offset"]) + 1 if "offset" in b else 0
+        out.append({"explicit": hit[0], "src": hit[1], "dst": hit[2], "operand": hit[3], "text": hit[4],
+                    "line": line, "cond": in_cond, "role": role})
+    conds = _COND_CHILD.get(k, (2,) if k == "ForStmt" else ())
+    for i, c in enumerate(inner):
+        if not c:
+            continue
+        if k in ("ParenExpr", "ImplicitCastExpr", "CStyleCastExpr"):
+            r = role
+        elif k == "CallExpr" and i >= 1:
+            r = "arg"
+        elif k == "BinaryOperator" and n.get("opcode") == "=" and i == 1 and inner[0].get("kind") != "DeclRefExpr":
+            r = "store"
+        else:
+            r = None
+        _find_casts(c, src, fn_off, in_cond or i in conds, r, out)
+
+
+def _py_ub(e):
+    """the bound of Mhd.Hash.CExpr.ub, for the coverage summary only (the theorem is what counts)"""
+    if e[0] == "lit":
+        return e[1] + 1
+    if e[0] == "other":
+        return 1 << e[2]
+    a, b = _py_ub(e[1]), _py_ub(e[2])
+    if e[0] == "band":
+        return min(a, b)
+    if e[0] == "mod":
+        return e[2][1] if e[2][0] == "lit" and e[2][1] else a
+    return ((a - 1) >> e[2][1]) + 1 if e[2][0] == "lit" else a
+
+
+def _py_harmless(c):
+    return _py_ub(c["operand"]) <= (1 << c["dst"])
+
+
+def _lean_cexpr(e):
+    if e[0] == "lit":
+        return ".lit %d" % e[1]
+    if e[0] == "other":
+        return ".other %s %d" % (json.dumps(e[1], ensure_ascii=True), e[2])
+    return ".%s (%s) (%s)" % (e[0], _lean_cexpr(e[1]), _lean_cexpr(e[2]))
+
+
+def extract_casts():
+    """-> (list of cast records with 'fn', list of (fn, bits of update's length parameter))"""
+    casts, lens = [], []
+    for alg, rel, upd, fin in CAST_FUNCS:
+        src = extract.src(rel)
+        for fn in (upd, fin):
+            defs = [d for d in _ast_docs(rel, fn) if d.get("kind") == "FunctionDecl" and d.get("name") == fn
+                    and any(c.get("kind") == "CompoundStmt" for c in d.get("inner", []))]
+            if len(defs) != 1:
+                raise RuntimeError("definition of %s not found in %s" % (fn, rel))
+            d = defs[0]
+            off = _loc(d["range"]["begin"]).get("offset", 0)
+            _FN_RANGE[:] = [off, _loc(d["range"]["end"]).get("offset", len(src))]
+            name = ("ws:" if alg == "wssha1" else "") + fn
+            found = []
+            _find_casts(d, src, off, False, None, found)
+            for c in found:
+                c["fn"] = name
+                # the length field / digest bytes written by finish are data, not control flow: a conversion
+                # there (e.g. storing the bit count as two 32-bit words) is what the byte-counter cases of the
+                # correspondence run look at, not the width theorem
+                c["data"] = (fn == fin and c["role"] is not None and not c["cond"])
+            casts += found
+            if fn == upd:
+                ps = [c for c in d.get("inner", []) if c.get("kind") == "ParmVarDecl"]
+                if len(ps) != 3:
+                    raise RuntimeError("%s: expected (ctx, data, length)" % fn)
+                lens.append((name, ps[2].get("name", "?"), _bits(_ty(ps[2])) or 0))
+    return casts, lens
+
+
+def gen_hash_casts():
+    casts, lens = extract_casts()
+    o = [extract.HEADER % "src/microhttpd/{md5,sha1,sha256,sha512_256}.c, src/microhttpd_ws/sha1.c "
+                          "(tools/props/C16.py: clang-14 JSON AST)"]
+    o.append("import Mhd.Model.Hash.CExpr\n")
+    o.append("namespace Mhd.Gen.Hash\nopen Mhd.Hash\n")
+    o.append("/-! Every conversion from a 64-bit integer to a narrower integer type (written casts and the implicit\n"
+             "conversions of assignments, initialisers, arguments, compound assignments) in the update and finish\n"
+             "functions of the five hash files, with the converted expression in a form that lets its value be\n"
+             "bounded.  `line` counts from the first line of the function definition.  `dataPath`: the converted value is\n"
+             "(only) an argument of a call or stored to memory inside a finish function (length field, digest bytes). -/\n")
+    o.append("def narrowingCasts : List NarrowCast := [")
+    o.append(",\n".join("  { fn := %s, text := %s, line := %d, explicit := %s, inCondition := %s, dataPath := %s,\n"
+                        "    srcBits := %d, dstBits := %d, operand := %s }"
+                        % (json.dumps(c["fn"]), json.dumps(c["text"], ensure_ascii=True), c["line"],
+                           "true" if c["explicit"] else "false", "true" if c["cond"] else "false",
+                           "true" if c["data"] else "false",
+                           c["src"], c["dst"], _lean_cexpr(c["operand"])) for c in casts) + "]\n")
+    o.append("/-- the same list for the reader: (function, converted expression, line in the function) -/")
+    o.append("def narrowingCastsInUpdate : List (String × String × Nat) :=\n  narrowingCasts.map fun c => (c.fn, c.text, c.line)\n")
+    o.append("/-- (update function, name of its length parameter, width of that parameter's type in bits) -/")
+    o.append("def updateLengthBits : List (String × String × Nat) := [" +
+             ", ".join("(%s, %s, %d)" % (json.dumps(f), json.dumps(p), b) for f, p, b in lens) + "]\n")
+    o.append("end Mhd.Gen.Hash\n")
+    return vlib.write_if_changed(os.path.join(extract.GEN, "HashCasts.lean"), "\n".join(o))
 
 
 # --------------------------------------------------------------------------
@@ -547,6 +784,91 @@ def counter_oracle(c, h, l):
     return (bits // 8) % (1 << 61), bits >> 64
 
 
+# --------------------------------------------------------------------------
+# ONE update call of >= 2^31 / 2^32 bytes (harness/h_hash_huge.c: zero pages of a read-only anonymous mapping).
+# The model's `length` is a natural number; C compares a size_t with `unsigned int` locals.  A narrowing on the
+# way (`(unsigned int) length >= bytes_left`) is invisible below 4 GiB.  Compared: the real code with one huge
+# call / the same real code with the same bytes in 1 MiB calls / hashlib fed 1 MiB at a time.  (The Lean model
+# cannot be *run* on 4 GiB lists; it is tied to these lengths by `no_narrowing_in_control_flow` instead.)
+
+T31, T32 = 1 << 31, 1 << 32
+_ZMB = bytes(1 << 20)
+HUGE_PIECE = 1 << 20
+
+
+def huge_prefix(k):
+    """k non-zero bytes (a stale buffer that is not flushed must change the digest)"""
+    return bytes((37 * i + 11) % 251 + 1 for i in range(k))
+
+
+def huge_plan(rng, alg, tier, boost):
+    """-> list of (k, off, n): update (k prefix bytes); update (zeros + off, n)"""
+    B = 128 if alg == "sha512_256" else 64
+    if tier != "thorough":
+        # low 32 bits of the length (0) are below the free space of the buffer (B - k), and are 0: what a
+        # truncated `length >= bytes_left`, a truncated `0 == length` and a truncated byte counter all get wrong
+        k = rng.choice([1, 7, B - 1])
+        plan = [(k, 0, T32)]
+        if boost:    # some proof obligation is broken: look a little harder for a concrete input
+            plan += [(7, 1, T32 + 5), (7, 0, T31 + B - 7)]
+        return plan
+    plan = []
+    for k in (1, 7, B - 1):
+        for d in sorted({0, 5, B - k - 1, B - k, B}):
+            plan.append((k, {(7, 5): 1, (1, 0): 3}.get((k, d), 0), T32 + d))
+    for d in (-1, 0, B - 7 - 1, B - 7):
+        plan.append((7, 0, T31 + d))
+    seen, out = set(), []
+    for c in plan:
+        if (c[0], c[2]) not in seen:
+            seen.add((c[0], c[2]))
+            out.append(c)
+    return out
+
+
+def _ref_cache_path():
+    return os.path.join(vlib.BUILD_ROOT, "hash_huge_ref.json")
+
+
+def huge_reference(alg, k, lens, counters=None):
+    """hashlib digest of huge_prefix(k) || 0^n for every n in lens: one incremental pass, 1 MiB per update call.
+    The values are constants of the standards; they are remembered in build/hash_huge_ref.json (key = algorithm,
+    prefix, length) so that later runs need not push the same 4 GiB through hashlib again."""
+    pre = huge_prefix(k)
+    try:
+        cache = json.load(open(_ref_cache_path()))
+    except (OSError, ValueError):
+        cache = {}
+    key = lambda n: "%s:%s:%d" % (HL[alg], pre.hex(), n)
+    out = {n: cache[key(n)] for n in lens if key(n) in cache}
+    todo = sorted(set(n for n in lens if n not in out))
+    if counters is not None:
+        counters["cached"] += len(out)
+        counters["computed"] += len(todo)
+    if todo:
+        h, fed = hashlib.new(HL[alg], pre), 0
+        for n in todo:
+            rest = n - fed
+            while rest >= len(_ZMB):
+                h.update(_ZMB)
+                rest -= len(_ZMB)
+            if rest:
+                h.update(_ZMB[:rest])
+            fed = n
+            out[n] = h.copy().hexdigest()
+        try:
+            with vlib.flock("hashref"):
+                try:
+                    cache = json.load(open(_ref_cache_path()))
+                except (OSError, ValueError):
+                    cache = {}
+                cache.update({key(n): out[n] for n in todo})
+                vlib.write_if_changed(_ref_cache_path(), json.dumps(cache, indent=0, sort_keys=True))
+        except OSError:
+            pass
+    return out
+
+
 class Spec:
     props_module = "Mhd.Props.C16"
     lean_targets = ["Mhd.Props.C16", "drv_hash"]
@@ -554,7 +876,8 @@ class Spec:
         "sha256_chunks", "sha256_reuse", "sha256_table_is_standard",
         "md5_chunks", "md5_reuse", "md5_table_is_standard",
         "sha512_256_chunks", "sha512_256_reuse", "sha512_256_counter", "sha512_256_table_is_standard",
-        "sha1_chunks", "sha1_reuse", "ws_sha1_chunks", "ws_sha1_reuse", "sha1_table_is_standard")]
+        "sha1_chunks", "sha1_reuse", "ws_sha1_chunks", "ws_sha1_reuse", "sha1_table_is_standard",
+        "no_narrowing_in_control_flow")]
     trusted_base = ["Lean 4 kernel", "axioms: propext, Classical.choice, Quot.sound at most (audited per theorem)",
                     "hand-written specifications lean/Mhd/Model/Hash/Spec{Md5,Sha1,Sha256,Sha512}.lean + the padding frame "
                     "Spec.Hash in Model/Hash/MD.lean (RFC 1321 / FIPS 180-4 transcriptions; validated on the published "
@@ -576,6 +899,12 @@ class Spec:
 
     def gen(self, ctx):
         try:
+            gen_hash_casts()     # a failure here propagates: the width facts are then not regenerated
+        finally:
+            self.gen_steps(ctx)
+
+    def gen_steps(self, ctx):
+        try:
             gen_hash()
         except RuntimeError as ex:
             # the step macros were renamed / reshaped: keep the committed tables (the proofs then speak about
@@ -593,6 +922,11 @@ class Spec:
         self.h_ws = vlib.cc("h_hash_ws", [h, os.path.join(W, "sha1.c")],
                             extra=['-DHASH_WS_H="%s"' % os.path.join(W, "sha1.h")])
         self.driver = vlib.driver_path("drv_hash")
+        hh = os.path.join(vlib.VERIF, "harness/h_hash_huge.c")   # no sanitizers, -O2: 4 GiB per call
+        self.h_huge = vlib.cc("h_hash_huge", [hh] + [os.path.join(R, f) for f in ("md5.c", "sha1.c", "sha256.c", "sha512_256.c")],
+                              extra=["-O2"], san=False)
+        self.h_huge_ws = vlib.cc("h_hash_huge_ws", [hh, os.path.join(W, "sha1.c")],
+                                 extra=["-O2", '-DHASH_WS_H="%s"' % os.path.join(W, "sha1.h")], san=False)
         self.h_cnt = None
         frag = counter_fragment()
         if frag is not None:
@@ -632,6 +966,116 @@ class Spec:
             if len(failures) > 30:
                 break
         stats["counter_probes"] = {"probes": len(ps), "with_64bit_wrap": nwrap}
+
+    def cast_summary(self):
+        try:
+            casts, lens = extract_casts()
+        except Exception as ex:
+            return "extraction failed: %s" % str(ex)[:200]
+        return {"found_in_update_finish": len(casts), "on_finish_data_path": sum(1 for c in casts if c["data"]),
+                "in_conditions": sum(1 for c in casts if c["cond"]),
+                "unbounded_operand": ["%s: %s" % (c["fn"], c["text"]) for c in casts if not c["data"] and not _py_harmless(c)],
+                "length_parameter_bits": {f: b for f, _, b in lens}}
+
+    def huge_for(self, alg):
+        return self.h_huge_ws if alg == "wssha1" else self.h_huge
+
+    def huge_start(self, ctx, boost):
+        """start the huge-update cases in the background (one process per algorithm + one hashlib thread)"""
+        from concurrent.futures import ThreadPoolExecutor
+        self.huge = None
+        if os.environ.get("VERIF_C16_HUGE", "1") == "0":
+            return
+        algs = [a for a in self.algs if a != "sha512_256" or _HAVE_512_256]
+        plans = {a: huge_plan(ctx.rng, a, ctx.tier, boost) for a in algs}
+        ex = ThreadPoolExecutor(max_workers=len(algs) + 1)
+        env = {"LP_WATCHDOG": "1500"}
+
+        def run_c(alg):
+            lines = ["one %s %d %s %d" % (alg, off, huge_prefix(k).hex(), n) for k, off, n in plans[alg]]
+            if ctx.tier == "thorough":   # (i) the same bytes in 1 MiB calls: one pass per (prefix, base), ends by copies
+                for k in sorted(set(c[0] for c in plans[alg])):
+                    for base, lo in ((T31 - 1, T31 - 1), (T32, T32)):
+                        ds = sorted(set(n - base for kk, _, n in plans[alg] if kk == k and lo <= n < lo + 4096))
+                        if ds:
+                            lines.append("multi %s 0 %s %d %d %s" % (alg, huge_prefix(k).hex(), base, HUGE_PIECE,
+                                                                     " ".join(str(d) for d in ds)))
+            t = time.time()
+            out, rc, err = vlib.run_lines(self.huge_for(alg), lines, timeout=7000, env=env)
+            return lines, out, rc, err, time.time() - t
+
+        def run_ref():
+            cnt = {"cached": 0, "computed": 0}
+            t = time.time()
+            refs = {}
+            for alg in algs:
+                for k in sorted(set(c[0] for c in plans[alg])):
+                    r = huge_reference(alg, k, [n for kk, _, n in plans[alg] if kk == k], cnt)
+                    refs.update({(alg, k, n): v for n, v in r.items()})
+            cnt["seconds"] = round(time.time() - t, 1)
+            return refs, cnt
+        self.huge = {"plans": plans, "ex": ex, "c": {a: ex.submit(run_c, a) for a in algs}, "ref": ex.submit(run_ref)}
+
+    def huge_collect(self, ctx, failures, stats):
+        if not self.huge:
+            stats["huge"] = "not run"
+            return
+        refs, cnt = self.huge["ref"].result()
+        cov = {"cases": 0, "agree": 0, "per_algorithm": {}, "lengths": {}, "pieces_compared": 0,
+               "reference_digests": cnt, "seconds_per_algorithm": {}}
+        for alg, fut in self.huge["c"].items():
+            lines, out, rc, err, secs = fut.result()
+            plan = self.huge["plans"][alg]
+            cov["seconds_per_algorithm"][alg] = round(secs, 1)
+            cov["per_algorithm"][alg] = ["k=%d off=%d len=2^%d%+d" % (k, off, 31 if n < T32 - 4096 else 32,
+                                                                      n - (T31 if n < T32 - 4096 else T32)) for k, off, n in plan]
+            pieces = {}
+            for l, o in zip(lines[len(plan):], out[len(plan):]):   # `multi` lines (thorough)
+                w = l.split()
+                for d, dg in zip(w[6:], o.split()[1:]):
+                    pieces[(len(w[3]) // 2, int(w[4]) + int(d))] = dg
+            for i, (k, off, n) in enumerate(plan):
+                cov["cases"] += 1
+                cls = "2^31%+d" % (n - T31) if n < T32 - 4096 else "2^32%+d" % (n - T32)
+                cov["lengths"][cls] = cov["lengths"].get(cls, 0) + 1
+                want = "digest " + refs[(alg, k, n)]
+                inp = [lines[i]]
+                if i >= len(out):
+                    if i == len(out):
+                        failures.append(vlib.Failure(
+                            "sanitizer", "hash %s huge-update: harness died in one update call of >= 2^31 bytes (%s)"
+                            % (alg, "watchdog" if rc == 124 else "timeout" if rc == -999 else "signal/exit N"),
+                            "rc=%d after %d of %d cases; stderr: %s" % (rc, len(out), len(plan), (err or "")[-300:]),
+                            inp, "hash"))
+                    continue
+                if out[i] == want:
+                    pc = pieces.get((k, n))
+                    if pc is not None:
+                        cov["pieces_compared"] += 1
+                        if "digest " + pc != want:
+                            failures.append(vlib.Failure(
+                                "oracle", "hash %s huge-update: digest of the bytes fed in 1 MiB calls differs from the standard" % alg,
+                                "prefix %d bytes then %d zero bytes in calls of %d: code '%s', standard '%s'"
+                                % (k, n, HUGE_PIECE, pc, want), ["pieces %s 0 %s %d %d" % (alg, huge_prefix(k).hex(), n, HUGE_PIECE)],
+                                "hash"))
+                            continue
+                    cov["agree"] += 1
+                    continue
+                # diagnose: the same bytes through the same code in small calls
+                pl = "pieces %s %d %s %d %d" % (alg, off, huge_prefix(k).hex(), n, HUGE_PIECE)
+                po, prc, perr = vlib.run_lines(self.huge_for(alg), [pl], timeout=3000, env={"LP_WATCHDOG": "1500"})
+                same = bool(po) and po[0] == want
+                failures.append(vlib.Failure(
+                    "oracle", "hash %s huge-update: digest of ONE update call of >= 2^31 bytes differs from the standard (%s)"
+                    % (alg, "the same bytes in 1 MiB calls give the standard's digest" if same else "so do 1 MiB calls"),
+                    "update (%d bytes); update (zeros%+d, %d = 2^%d%+d): code '%s', standard (hashlib, incremental) '%s', "
+                    "same code fed in 1 MiB calls '%s'" % (k, off, n, 31 if n < T32 - 4096 else 32,
+                                                            n - (T31 if n < T32 - 4096 else T32), out[i], want, po[0] if po else "<none>"),
+                    inp, "hash"))
+        self.huge["ex"].shutdown()
+        stats["huge"] = cov
+        ctx.note("huge single updates: %d cases, %d agree with hashlib (%s)" % (cov["cases"], cov["agree"],
+                 ", ".join("%s %.0fs" % kv for kv in cov["seconds_per_algorithm"].items())))
 
     def harness_for(self, alg):
         return self.h_ws if alg == "wssha1" else self.h_main
@@ -710,6 +1154,7 @@ class Spec:
             for f in sorted(os.listdir(cdir)):
                 corpus.append(json.load(open(os.path.join(cdir, f))))
         samples, distinct = [], set()
+        self.huge_start(ctx, boost)   # runs in the background while the small cases go through
         for alg in self.algs:   # the pure-Python reference used for the long-count cases must agree with hashlib
             for n in (0, 1, 55, 56, 64, 111, 112, 128, 129, 300):
                 m = ctx.rng.randbytes(n)
@@ -736,6 +1181,7 @@ class Spec:
                                                              [len(x) for x in cases[5][1]][:8], cases[5][2][:8]))
             ctx.note("%s: %d cases, %d failures so far" % (alg, stats["per_alg"][alg], len(failures)))
         self.run_counter(ctx, failures, stats)
+        self.huge_collect(ctx, failures, stats)
         cov = {"evaluations": stats["cases"], "distinct_nontrivial": len(distinct),
                "rule": "one evaluation = one message through init/update*/finish on the real code (16 replicas: every data "
                        "and digest misalignment 0..15, contexts re-used across messages), the Lean model, and hashlib; "
@@ -747,6 +1193,12 @@ class Spec:
                "by_mode": stats["by_tag"], "length_classes": stats["len_class"], "chunks_fed": stats["chunks"],
                "empty_chunks_fed": stats["empty_chunks"], "per_algorithm": stats["per_alg"],
                "sha512_256_counter_fragment": stats.get("counter_probes"),
+               "huge_single_update": stats.get("huge"),
+               "huge_single_update_rule": "update (k bytes); update (zeros, 2^32+d or 2^31+d) in ONE call on the real code "
+                                          "(-O2, no sanitizer, zero pages of a read-only mapping) vs hashlib fed 1 MiB at a time"
+                                          + (" vs the same code fed 1 MiB at a time" if ctx.tier == "thorough" else
+                                             " (the same code fed 1 MiB at a time is run when they differ)"),
+               "narrowing_casts": self.cast_summary(),
                "misalignments": "0..15 for every update and every digest (harness replicas), under -fsanitize=alignment",
                "hashlib_has_sha512_256": _HAVE_512_256, "exhaustive": False,
                "extractor_note": getattr(self, "gen_note", None)}
@@ -783,6 +1235,16 @@ def replay(ctx, path):
         print("replay file carries no input (proof obligation only):", r.get("no_longer_checks"))
         return 1
     alg = inp[0].split()[1]
+    if inp[0].split()[0] in ("one", "pieces", "multi"):
+        bad = 0
+        for l in inp:
+            w = l.split()
+            out, rc, err = vlib.run_lines(sp.huge_for(alg), [l], timeout=3000, env={"LP_WATCHDOG": "1500"})
+            k, n = len(w[3]) // 2, int(w[4])
+            want = "digest " + huge_reference(alg, k, [n])[n] if w[0] != "multi" else None
+            print("%s\n   code: %s\n   standard (hashlib): %s" % (l, out[0] if out else "<died rc=%d %s>" % (rc, err[-200:]), want))
+            bad |= (not out) or (want is not None and out[0] != want)
+        return 1 if bad else 0
     if inp[0].startswith("bump "):
         if sp.h_cnt is None:
             print("counter fragment not found in the source")
